@@ -236,6 +236,12 @@ def run_job(job, io):
     reg = Registry()
     custom_funcs = {U.CA: reg.register(U.CA, 'ns', style=tape.draw(4, 'style')),
                     U.CB: reg.register(U.CB, GLOBAL, style=tape.draw(4, 'style-g'))}
+    if tape.draw(2, 'double-registration'):
+        # the same classes ALSO registered in the other place, with callables that list the children in reverse: in namespace
+        # 'ns' the named registration must win on both sides, elsewhere the global one
+        reg.register(U.CA, GLOBAL, style=tape.draw(4, 'style-ca-g')).reverse = True
+        reg.register(U.CB, 'ns', style=tape.draw(4, 'style-cb-ns')).reverse = True
+        probes['double-registration'] += 1
     import warnings as _w
     with _w.catch_warnings():
         _w.simplefilter('ignore')
